@@ -33,7 +33,7 @@ def push_tok():
 
 
 KEY_FORMS = ["c", "c", "c", "u", "u", "h", "hbad", "xgep", "off", "p05", "short", "empty"]
-SIG_VARIANTS = ["ok", "ok", "ok", "ok", "ok", "ok", "highs", "padr", "pads", "negr", "negs", "r0", "s0", "rn", "r33",
+SIG_VARIANTS = ["ok", "ok", "ok", "ok", "ok", "ok", "ok", "ok", "empty", "empty", "empty", "highs", "padr", "pads", "negr", "negs", "r0", "s0", "rn", "r33",
                 "seqlen+1", "seqlen-1", "longlen", "longrlen", "trail", "notseq", "nohashtype", "empty", "wrongkey",
                 "wrongmsg", "s-lastlow", "s-firsthigh", "s-halfp"]
 HASHTYPES = st.one_of(st.sampled_from([1, 1, 1, 2, 3, 0x81, 0x82, 0x83, 0, 4, 0x41, 0xff, 0x80, 0x21, 0x1f]),
@@ -245,8 +245,10 @@ STD_HT = st.sampled_from([1, 1, 1, 2, 3, 0x81, 0x82, 0x83])
 def lock_templates():
     """(lock tokens, unlock tokens) for signature-bearing standard-ish locks; signatures valid by construction
     unless a variant says otherwise"""
-    def p2pk(k, form, ht, var, sep, op):
+    def p2pk(k, form, ht, var, sep, op, neg):
         lock = ([["op", V.OP_CODESEPARATOR]] if sep else []) + [["key", k, form], ["op", op]] + ([["n", 1, "opn"]] if op == V.OP_CHECKSIGVERIFY else [])
+        if neg and op == V.OP_CHECKSIG:
+            lock.append(["op", V.OP_NOT])      # a failed check that is then negated: NULLFAIL must still abort
         return lock, [["sig", k, ht, var, 1 if sep else 0]]
 
     def p2pkh(k, form, ht, var):
@@ -255,7 +257,7 @@ def lock_templates():
                 ["op", V.OP_EQUALVERIFY], ["op", V.OP_CHECKSIG]]
         return lock, [["sig", k, ht, var, 0], ["key", k, form]]
 
-    def msig(n, m, forms, vars_, hts, order, dummy, op, nenc):
+    def msig(n, m, forms, vars_, hts, order, dummy, op, nenc, neg):
         m = min(m, n)
         keys = [["key", i % 6, forms[i % len(forms)]] for i in range(n)]
         signers = list(range(n))
@@ -269,7 +271,20 @@ def lock_templates():
             signers = signers[::2][:m]
         sigs = [["sig", i % 6, hts[j % len(hts)], vars_[j % len(vars_)], 0] for j, i in enumerate(signers)]
         lock = [["n", m, nenc]] + keys + [["n", n, nenc], ["op", op]] + ([["n", 1, "opn"]] if op == V.OP_CHECKMULTISIGVERIFY else [])
+        if neg and op == V.OP_CHECKMULTISIG:
+            lock.append(["op", V.OP_NOT])
         return lock, [dummy] + sigs
+
+    def msig_partial(n, m, bad_mask, bad_kind, ht, neg, form):
+        # an m-of-n multisig whose signatures are all valid except a generated subset (empty / wrong key / wrong message)
+        m = max(1, min(m, n))
+        keys = [["key", i % 6, form] for i in range(n)]
+        sigs = []
+        for j in range(m):
+            var = bad_kind[j % len(bad_kind)] if (bad_mask >> j) & 1 else "ok"
+            sigs.append(["sig", j % 6, ht, var, 0])
+        lock = [["n", m, "opn"]] + keys + [["n", n, "opn"], ["op", V.OP_CHECKMULTISIG]] + ([["op", V.OP_NOT]] if neg else [])
+        return lock, [["n", 0, "opn"]] + sigs
 
     def embedded(k, ht, sep):
         # signature pushed by the lock script itself (FindAndDelete), optionally after a code separator
@@ -290,15 +305,19 @@ def lock_templates():
     vars_ = st.sampled_from(SIG_VARIANTS)
     ht = weighted((2, STD_HT), (1, HASHTYPES))
     return st.one_of(
-        st.builds(p2pk, ks, forms, ht, vars_, st.booleans(), st.sampled_from([V.OP_CHECKSIG, V.OP_CHECKSIG, V.OP_CHECKSIGVERIFY])),
+        st.builds(p2pk, ks, forms, ht, vars_, st.booleans(), st.sampled_from([V.OP_CHECKSIG, V.OP_CHECKSIG, V.OP_CHECKSIGVERIFY]),
+                  st.sampled_from([False, False, False, True])),
         st.builds(p2pkh, ks, forms, ht, vars_),
         st.builds(msig, st.one_of(st.integers(1, 4), st.sampled_from([15, 16, 20])), st.integers(0, 3),
                   st.lists(forms, min_size=1, max_size=3), st.lists(vars_, min_size=1, max_size=3),
                   st.lists(ht, min_size=1, max_size=2), st.integers(0, 3),
                   st.sampled_from([["n", 0, "opn"]] * 4 + [["n", 1, "opn"], ["d", "00", "min"]]),
                   st.sampled_from([V.OP_CHECKMULTISIG, V.OP_CHECKMULTISIG, V.OP_CHECKMULTISIGVERIFY]),
-                  st.sampled_from(["opn", "opn", "opn", "min", "p1"])),
+                  st.sampled_from(["opn", "opn", "opn", "min", "p1"]), st.sampled_from([False, False, True])),
         st.builds(embedded, ks, ht, st.booleans()),
+        st.builds(msig_partial, st.integers(2, 5), st.integers(1, 4), st.integers(0, 15),
+                  st.lists(st.sampled_from(["empty", "empty", "wrongkey", "wrongmsg", "highs"]), min_size=1, max_size=2), STD_HT,
+                  st.booleans(), st.sampled_from(["c", "c", "u"])),
         st.builds(cltv, ks, st.sampled_from(INTERESTING_NUMS), STD_HT, st.sampled_from([V.OP_CHECKLOCKTIMEVERIFY, V.OP_CHECKSEQUENCEVERIFY]),
                   st.sampled_from([None, "eq", "eq", "+1", "-1", "bit16", "bit21", "bit22", "bit31", "mask16", "era"])),
         st.builds(ifsig, ks, STD_HT, st.sampled_from([["n", 1, "opn"], ["n", 0, "opn"], ["d", "02", "min"], ["d", "0100", "min"], ["d", "00", "min"]])),
